@@ -278,7 +278,20 @@ def _cross(u, v):
     return [u[1] * v[2] - u[2] * v[1], u[2] * v[0] - u[0] * v[2], u[0] * v[1] - u[1] * v[0]]
 
 
+_POLYCACHE = {}
+
+
 def polytope_parts(verts):
+    key = json.dumps(verts)
+    if key not in _POLYCACHE:
+        if len(_POLYCACHE) > 300:
+            _POLYCACHE.clear()
+        _POLYCACHE[key] = _polytope_parts(verts)
+    V, F, planes = _POLYCACHE[key]
+    return V.copy(), F.copy(), list(planes)
+
+
+def _polytope_parts(verts):
     """Hull of integer points: (vertex array, outward-wound triangles, de-duplicated integer half-spaces [nx,ny,nz,d] with
     n·x < d inside).  Everything exact in Python integers except the hull combinatorics (scipy/Qhull), which trimesh
     re-verifies."""
@@ -324,6 +337,26 @@ def gen_polytope(rnd, big=False):
         except Exception:
             continue
     raise RuntimeError('no polytope generated')
+
+
+def on_surface(geom, p2):
+    """The (doubled) point lies on the surface of the volume — only possible for polytopes (a face plane through it) or for
+    non-half-integer points of a box complex; such points are outside the property's quantifier."""
+    if geom.get('shape') == 'polytope':
+        return any(h[0] * p2[0] + h[1] * p2[1] + h[2] * p2[2] == 2 * h[3] for h in polytope_parts(geom['verts'])[2])
+    return any(int(v) % 2 == 0 for v in p2)
+
+
+def off_surfaces(geoms, pts):
+    return [p for p in pts if not any(on_surface(g, p) for g in geoms)]
+
+
+def surface_guard(ctx, geoms, pts):
+    """True (and the case is skipped) if some query point / node / vertex of a hand-made or shrunk case sits on a surface."""
+    if any(on_surface(g, p) for g in geoms for p in pts):
+        ctx.count('skipped_point_on_surface')
+        return True
+    return False
 
 # --- shape generators ------------------------------------------------------------------------------------------
 def _rbox(rnd, lo, hi, minsize=1):
@@ -492,6 +525,8 @@ def run_points(ctx, case):
         ctx.count('bad_mesh', str(e)[:40])
         return
     S = solid_str(geom)
+    if surface_guard(ctx, [geom], case['pts']):
+        return
     ctx.count('shape_pose', geom_class(geom))
     # the voxelisation the mesh was built from is the model's solid (every cell of the bounding box, one point each)
     if case.get('check_vox', True) and geom.get('shape') != 'polytope':
@@ -569,6 +604,8 @@ def run_tree(ctx, case):
         ctx.count('bad_mesh', str(e)[:40]); return
     S = solid_str(geom)
     nodes, conns = case['nodes'], case['conns']
+    if surface_guard(ctx, [geom], [n[2:5] for n in nodes]):
+        return
     ctx.count('tree_shape', geom_class(geom).split('/')[0])
     all_ids = [n[0] for n in nodes]
     # hypothesis `Attached` of Props/C18.each_carries_own_connectors: every connector sits on an existing node (the generators
@@ -648,6 +685,8 @@ def run_dots(ctx, case):
         ctx.count('bad_mesh', str(e)[:40]); return
     S = solid_str(geom)
     pts2, conns = case['pts'], case['conns']
+    if surface_guard(ctx, [geom], pts2):
+        return
     index = {tuple(p): i for i, p in enumerate(pts2)}
     res = {}
     for mode in ('IN', 'OUT'):
@@ -723,6 +762,8 @@ def run_mesh(ctx, case):
         ctx.count('bad_mesh', str(e)[:40]); return
     S = solid_str(geom)
     conns = case['conns']
+    if surface_guard(ctx, [geom], case['verts']):
+        return
     m0 = make_mesh(case['verts'], case['faces'], conns)
     # what navis actually holds after trimesh processing is what the model sees
     verts2 = [[int(round(2 * v)) for v in p] for p in np.asarray(m0.vertices)]
@@ -798,6 +839,8 @@ def run_multi(ctx, case):
     except BadMesh as e:
         ctx.count('bad_mesh', str(e)[:40]); return
     how = case['how']           # 'dict' | 'list'
+    if surface_guard(ctx, [g for _, g in named], case['pts'] if case['target'] == 'points' else [n[2:5] for n in case['nodes']]):
+        return
     names = [k for k, _ in named]
     dup = len(set(names)) != len(names)
     ctx.count('multi', f"{how}/{len(named)}/{case['target']}" + ('/dup-names' if dup else ''))
@@ -863,6 +906,8 @@ def run_imat(ctx, case):
     except BadMesh as e:
         ctx.count('bad_mesh', str(e)[:40]); return
     trees = case['trees']
+    if surface_guard(ctx, [g for _, g in named], [n[2:5] for t in trees for n in t[0]]):
+        return
     how, mode = case['how'], case['mode']
     nl = navis.NeuronList([make_tree(n, c, nid=i + 1) for i, (n, c) in enumerate(trees)])
     vols = {k: v for k, v in built} if how == 'dict' else [v for _, v in built]
@@ -1115,9 +1160,15 @@ def gen_cases(ctx):
         g0 = vols[0]
         vox0 = sorted(voxelise(g0['csg'] or []))
         if i % 3 == 0:
-            yield 'multi', {'vols': named, 'how': how, 'target': 'points', 'pts': query_points2(g0, vox0, rnd, 25)}
+            yield 'multi', {'vols': named, 'how': how, 'target': 'points',
+                            'pts': off_surfaces(vols, query_points2(g0, vox0, rnd, 25))}
         else:
             nodes, conns = gen_tree_on(rnd, g0, vox0, rnd.randrange(2, 12))
+            nodes = [n for n in nodes if not any(on_surface(g, n[2:5]) for g in vols)]
+            left = {n[0] for n in nodes}
+            conns = None if conns is None else [c for c in conns if c[1] in left]
+            if not nodes:
+                continue
             yield 'multi', {'vols': named, 'how': how, 'target': 'tree', 'nodes': nodes, 'conns': conns}
     for i in range(ctx.budget(25, 200)):
         k = rnd.choice((1, 2, 3))
@@ -1132,7 +1183,14 @@ def gen_cases(ctx):
         trees = []
         for j in range(rnd.randrange(1, 4)):
             g = rnd.choice(vols)
-            trees.append(list(gen_tree_on(rnd, g, sorted(voxelise(g['csg'] or [])), rnd.randrange(1, 10))))
+            nodes, conns = gen_tree_on(rnd, g, sorted(voxelise(g['csg'] or [])), rnd.randrange(1, 10))
+            nodes = [n for n in nodes if not any(on_surface(v, n[2:5]) for v in vols)]
+            left = {n[0] for n in nodes}
+            conns = None if conns is None else [c for c in conns if c[1] in left]
+            if nodes:
+                trees.append([nodes, conns])
+        if not trees:
+            continue
         yield 'imat', {'vols': list(zip(names, vols)), 'how': rnd.choice(['dict', 'list']), 'mode': rnd.choice(['IN', 'OUT']),
                        'default_mode': rnd.random() < 0.5, 'trees': trees}
 
